@@ -39,6 +39,29 @@ def _recorded():
     return out
 
 
+_SIGS = None
+
+
+def _recorded_sigs():
+    """{unit: {normalised def: recorded signature}}"""
+    global _SIGS
+    if _SIGS is None:
+        _SIGS = {}
+        if os.path.exists(TABLE):
+            with open(TABLE) as fh:
+                t = json.load(fh)
+            for unit, rec in t.items():
+                _SIGS[unit] = dict((fb.norm(d), sg) for d, sg in rec.items())
+    return _SIGS
+
+
+def _short_ty(t):
+    import re as _re
+    t = _re.sub(r"'[a-zA-Z_][a-zA-Z0-9_]*\s*", "", str(t or ""))
+    t = _re.sub(r"(?:[A-Za-z_][A-Za-z0-9_]*::)+", "", t)
+    return t.replace("<>", "").replace(" ", "")
+
+
 def _max_id(node):
     m = 0
     stack = [node]
@@ -122,6 +145,53 @@ def _copy(node, off, subst, in_closure=False, only=None):
     return out
 
 
+def _lit_bool(e):
+    while isinstance(e, dict) and e.get("k") == "block" and not e.get("stmts") and e.get("e") is not None:
+        e = e["e"]
+    if isinstance(e, dict) and e.get("k") == "lit" and str(e.get("v", "")).startswith("bool:"):
+        return e["v"] == "bool:true"
+    if isinstance(e, dict) and e.get("k") == "unary" and e.get("op") == "!":
+        v = _lit_bool(e.get("e"))
+        return None if v is None else (not v)
+    return None
+
+
+def _fold(node):
+    """`if true { A } else { B }` -> A (a flag parameter that was given a literal): in place for children, returns the replacement."""
+    if isinstance(node, list):
+        for i, x in enumerate(node):
+            node[i] = _fold(x)
+        return node
+    if not isinstance(node, dict):
+        return node
+    for key, v in list(node.items()):
+        if isinstance(v, (dict, list)):
+            node[key] = _fold(v)
+    if node.get("k") == "if" and isinstance(node.get("c"), dict) and node["c"].get("k") != "letx":
+        v = _lit_bool(node["c"])
+        if v is True:
+            return node.get("t")
+        if v is False:
+            return node.get("e") if node.get("e") is not None else {"k": "block", "stmts": [], "e": None, "ty": "()", "ln": node.get("ln"), "s": node.get("s")}
+    if node.get("k") == "binary" and node.get("op") in ("&&", "||"):
+        l, r = _lit_bool(node.get("l")), _lit_bool(node.get("r"))
+        if node["op"] == "&&":
+            if l is True:
+                return node["r"]
+            if r is True:
+                return node["l"]
+            if l is False or r is False:
+                return {"k": "lit", "v": "bool:false", "ty": "bool", "ln": node.get("ln"), "s": node.get("s")}
+        else:
+            if l is False:
+                return node["r"]
+            if r is False:
+                return node["l"]
+            if l is True or r is True:
+                return {"k": "lit", "v": "bool:true", "ty": "bool", "ln": node.get("ln"), "s": node.get("s")}
+    return node
+
+
 def _inline_call(call, helper, next_off):
     """-> replacement block node for `call` (a call/mcall whose callee is `helper`), or None if the shapes do not line up."""
     params = helper.params
@@ -139,6 +209,8 @@ def _inline_call(call, helper, next_off):
         else:
             lets.append({"k": "let", "pat": _copy(pat, next_off, {}), "init": a, "ln": call.get("ln"), "s": call.get("s")})
     body = _copy(helper.body, next_off, subst)
+    if any(_lit_bool(a) is not None for a in subst.values()):
+        body = _fold(body)
     blk = {"k": "block", "stmts": lets, "e": body, "ty": call.get("ty"), "ln": call.get("ln"), "s": call.get("s"), "inl": helper.def_}
     if call.get("m"):
         blk["m"] = call["m"]
@@ -292,9 +364,165 @@ def _subst_closures_call_only(node, clos, state):
     return node
 
 
+def _args_of(call):
+    return ([call.get("recv")] if call.get("k") == "mcall" else []) + list(call.get("args", []))
+
+
+def _specialise_merged(facts):
+    """Two recorded fns that were merged into one unrecorded fn with a bool flag (`insert_from_iter` + `append_from_visitor` ->
+    `copy_from_iter(.., as_child)`) are given back their own bodies: for each literal value of the flag, a copy of the merged body with the
+    flag replaced by the literal and the branches on it folded.  The copy is stored under the recorded name when that is decidable - a recorded
+    fn that survived as a pure wrapper `fn old(x) { merged(x, true) }`, or the single recorded fn of the same owner and parameter types that
+    is gone - and every call `merged(.., <literal>)` is rewritten to a call of that name."""
+    rec = _recorded()
+    if rec is None:
+        return []
+    notes = []
+    for F in list(facts.fn_list):
+        if F.kind == "closure" or F.body is None or F.crate not in ("liwe", "iwes", "iwe") or F.absorbed:
+            continue
+        known = rec.get(F.unit)
+        if known is None or F.def_ in known or F.impl_trait or F.in_trait or "::tests::" in F.def_:
+            continue
+        flags = [i for i, p in enumerate(F.params) if str(p.get("ty") or "") == "bool" and (p.get("pat") or {}).get("k") == "p_bind"]
+        if len(flags) != 1:
+            continue
+        fi = flags[0]
+        flag_id = F.params[fi]["pat"]["id"]
+        # all call sites: literal flag, or (inside F) F's own flag
+        sites = []
+        okf = True
+        for g in facts.fn_list:
+            if g.body is None:
+                continue
+            for c in fb.calls_in(g.body):
+                if fb.norm(c.get("def") or "") != F.def_:
+                    continue
+                a = _args_of(c)
+                if len(a) != len(F.params):
+                    okf = False
+                    continue
+                v = _lit_bool(a[fi])
+                own = g is F and a[fi].get("k") == "path" and a[fi].get("id") == flag_id
+                if v is None and not own:
+                    okf = False
+                sites.append((g, c, v))
+        if not okf or not sites:
+            continue
+        values = sorted(set(v for _g, _c, v in sites if v is not None))
+        if not values:
+            continue
+        # names for the specialisations
+        names = {}
+        owner_recorded_missing = [d for d in known if d not in facts.fns and d.rsplit("::", 1)[0] == F.def_.rsplit("::", 1)[0]]
+        for v in values:
+            # a recorded fn that is now `fn g(params) { F(params, v) }`
+            for g in facts.fn_list:
+                if g is F or g.body is None or g.def_ not in known or g.kind == "closure":
+                    continue
+                b = g.body
+                while isinstance(b, dict) and b.get("k") == "block" and len(b.get("stmts", [])) + (1 if b.get("e") is not None else 0) == 1:
+                    b = b["e"] if b.get("e") is not None else b["stmts"][0]
+                if isinstance(b, dict) and b.get("k") in ("call", "mcall") and fb.norm(b.get("def") or "") == F.def_ and _lit_bool(_args_of(b)[fi]) is v and len(g.params) == len(F.params) - 1:
+                    names[v] = ("wrapper", g)
+        rest = [v for v in values if v not in names]
+        if len(rest) == 1 and len(owner_recorded_missing) > 1:
+            # several recorded fns of this owner are gone: the one with the merged fn's parameter types (flag left out)
+            want = [_short_ty(p.get("ty")) for i, p in enumerate(F.params) if i != fi]
+            sigs = _recorded_sigs().get(F.unit, {})
+            owner_recorded_missing = [d for d in owner_recorded_missing if [_short_ty(t) for t in (sigs.get(d) or {}).get("params", [])] == want]
+        if len(rest) == 1 and len(owner_recorded_missing) == 1:
+            names[rest[0]] = ("missing", owner_recorded_missing[0])
+        if not names:
+            continue
+        # build the specialised bodies
+        base = (_max_id(F.body) // 1000 + 1) * 1000
+        spec = {}
+        for n_, v in enumerate(values):
+            if v not in names:
+                continue
+            lit = {"k": "lit", "v": "bool:true" if v else "bool:false", "ty": "bool"}
+            body = _fold(_copy(F.body, base + 100000 * (n_ + 1), {flag_id: lit}, in_closure=True))
+            spec[v] = body
+
+        def target_def(v):
+            kind, what = names[v]
+            return what.def_ if kind == "wrapper" else what
+
+        def retarget(node):
+            # calls `F(.., <literal v>)` -> calls of the recorded name (flag argument dropped)
+            if isinstance(node, list):
+                for x in node:
+                    retarget(x)
+                return
+            if not isinstance(node, dict):
+                return
+            for v_ in node.values():
+                if isinstance(v_, (dict, list)):
+                    retarget(v_)
+            if node.get("k") in ("call", "mcall") and fb.norm(node.get("def") or "") == F.def_:
+                a = _args_of(node)
+                if len(a) == len(F.params):
+                    v = _lit_bool(a[fi])
+                    if v is not None and v in names:
+                        td = target_def(v)
+                        node["def"] = td
+                        if "rdef" in node:
+                            node["rdef"] = td
+                        if node.get("k") == "mcall":
+                            node["name"] = td.rsplit("::", 1)[-1]
+                            del node["args"][fi - 1]
+                        else:
+                            del node["args"][fi]
+        made = []
+        for v, body in spec.items():
+            kind, what = names[v]
+            params = [p for i, p in enumerate(F.params) if i != fi]
+            if kind == "wrapper":
+                g = what
+                g.body = body
+                g.d["body"] = body
+                g._canon_env = None
+                g.absorbed_fns = sorted(set(list(g.absorbed_fns) + [F.def_]))
+                # parameters of the wrapper keep their own ids: bind the merged fn's parameter ids to them
+                lets = []
+                for pf, pg in zip(params, g.params):
+                    for (_n1, idf), (_n2, idg) in zip(fb.pat_bindings(pf["pat"]), fb.pat_bindings(pg["pat"])):
+                        pass
+                # simplest sound choice: adopt the merged fn's parameter list (ids are those used in the copied body)
+                off = base + 100000 * (values.index(v) + 1)
+                g.params = [{"pat": _copy(p["pat"], off, {}), "ty": p.get("ty")} for p in params]
+                g.d["params"] = g.params
+                made.append(g.def_)
+            else:
+                d = dict(F.d)
+                d["def"] = what
+                off = base + 100000 * (values.index(v) + 1)
+                d["params"] = [{"pat": _copy(p["pat"], off, {}), "ty": p.get("ty")} for p in params]
+                d["body"] = body
+                syn = fb.Fn(d, F.crate, F.unit)
+                syn.facts = facts
+                syn.absorbed_fns = [F.def_]
+                facts.fns[syn.def_] = syn
+                facts.fn_list.append(syn)
+                facts.synthetic = getattr(facts, "synthetic", {})
+                facts.synthetic[syn.def_] = F.def_
+                made.append(syn.def_)
+        for g in facts.fn_list:
+            if g.body is not None:
+                retarget(g.body)
+        F.absorbed = True
+        notes.append("unrecorded fn `%s` merges recorded fns behind a bool flag: analysed as %s" % (fb.last2(F.def_), ", ".join("`%s`" % fb.last2(m) for m in made)))
+    return notes
+
+
 def apply(facts):
     """Inline unrecorded helper fns into their callers (in place). Returns notes for the evidence."""
     notes0 = []
+    try:
+        notes0 += _specialise_merged(facts)
+    except Exception as e:
+        notes0.append("merged-fn specialisation disabled: %s" % e)
     try:
         n = _inline_local_closures(facts)
         if n:
